@@ -817,3 +817,25 @@ Example unpaired_decoding_refuted :
   decode_boundary 3 2 t2f f2t (encode_boundary 3 2 t2f f2t ori b) = ([1; 2], [false; true]) /\
   decode_boundary_unpaired 3 2 t2f f2t (encode_boundary 3 2 t2f f2t ori b) = ([1; 2], [false; false]).
 Proof. vm_compute. repeat split. Qed.
+
+(* ------------------------------------------------------------------ keys with different two-character markers never collide *)
+Lemma key_with_prefix_inj a c a' c' n n' :
+  key_with_prefix (pre2 a c) n = key_with_prefix (pre2 a' c') n' -> pre2 a c = pre2 a' c' /\ n = n'.
+Proof.
+  intros H. unfold key_with_prefix in H.
+  assert (H1 := f_equal (String.substring 0 2) H). rewrite !substring_prefix2 in H1.
+  split; [exact H1|].
+  assert (H2 : String.substring 2 (String.length (String.append (pre2 a c) n) - 2) (String.append (pre2 a c) n)
+             = String.substring 2 (String.length (String.append (pre2 a' c') n') - 2) (String.append (pre2 a' c') n'))
+    by (rewrite H; reflexivity).
+  rewrite !substring_rest2 in H2. exact H2.
+Qed.
+
+Lemma in_prefixed_keys a c a' c' n names :
+  In (key_with_prefix (pre2 a c) n) (map (key_with_prefix (pre2 a' c')) names) <->
+  pre2 a c = pre2 a' c' /\ In n names.
+Proof.
+  rewrite in_map_iff. split.
+  - intros [m [He Hm]]. apply key_with_prefix_inj in He. destruct He as [Hp Hn]. subst m. split; [now symmetry | exact Hm].
+  - intros [Hp Hn]. exists n. split; [rewrite Hp; reflexivity | exact Hn].
+Qed.
